@@ -103,6 +103,15 @@ def operand(pairs, kind):
     raise AssertionError(kind)
 
 
+def source_cache(pairs, form):
+    """Another LRI/LRU filled by assigning the pairs one by one (a repeated key is re-assigned, so the
+    source's recency order differs from its iteration order), big enough to evict nothing."""
+    src = (cu.LRI if form == 'lri_src' else cu.LRU)(max_size=max(1, len(pairs)))
+    for k, v in pairs:
+        src[k] = v
+    return src
+
+
 def compare(c, name, pairs, kind='dict'):
     other = operand(pairs, kind)
     if kind.endswith('_reflected'):
@@ -127,7 +136,8 @@ def model_op(op):
     if name in ('update', 'ior'):
         pairs = dpairs(op[1])
         form = op[2] if len(op) > 2 else 'dict'
-        if form in ('dict', 'kwargs', 'bothdict'):
+        if form in ('dict', 'kwargs', 'bothdict', 'lri_src', 'lru_src'):
+            # (another cache as the source is read like any mapping: in its iteration order)
             pairs = list(dict(pairs).items())
         if form in ('both', 'bothdict'):
             # positional items first, then the keyword items, one assignment each
@@ -244,6 +254,8 @@ def exec_op(c, op, ctx):
                 c.update(pairs)
             elif form == 'iter':
                 c.update(iter(pairs))
+            elif form in ('lri_src', 'lru_src'):
+                c.update(source_cache(pairs, form))
             elif form == 'both':
                 kw = dict(dpairs(op[3]))
                 c.update(pairs, **kw)
@@ -254,7 +266,8 @@ def exec_op(c, op, ctx):
                 c.update(**dict(pairs))
             return ('ok', None), None
         if name == 'ior':
-            r = operator.ior(c, dict(dpairs(op[1])))
+            form = op[2] if len(op) > 2 else 'dict'
+            r = operator.ior(c, source_cache(dpairs(op[1]), form) if form in ('lri_src', 'lru_src') else dict(dpairs(op[1])))
             return ('ok', None if r is c else 'ior-returned-another-object'), None
         if name == 'in':
             return ('ok', dk(op[1]) in c), None
